@@ -407,6 +407,13 @@ def run(prog, ctx):
         if ob.rule == "G4":
             ob.rule = "E4"
     e5(prog, ctx)
+    parser.blank_set_rule(prog, ctx, "E7")
+    # E8: which error a layered read reports depends on every layer being looked at: a layer without drop-in directory is passed over
+    # (= C01.L20); E2: and the file parsed - the one the location names - is the one addressed (get_absolute_path, = C06.G2)
+    from rules import common as _common
+    from rules import C01 as _C01x, C06 as _C06x
+    _common.import_obligations(ctx, prog, [_C01x.l20_absent_dropin_dir], "E8", what="scan of a drop-in directory")
+    _common.import_obligations(ctx, prog, [lambda p9, c9: _C06x.abs_path_rule(p9, c9, "G2")], "E2", "the file parsed is the file named: ", what="get_absolute_path")
     # a malformed file can only be reported if it is parsed at all, and the location can only name the file the caller addressed
     # if the name is kept as found: both are rules of C01 (L18, L16), imported under this property's ids
     try:
